@@ -7,7 +7,8 @@
   objects, every live object compared after every step) exercises.
 -/
 import PdbVerif.Proofs.TableAssign
-import PdbVerif.Model.TableWorld
+import PdbVerif.Proofs.TableWorld
+import PdbVerif.Props.C03
 
 set_option linter.unusedVariables false
 set_option linter.unusedSimpArgs false
@@ -92,15 +93,6 @@ theorem independence_step (rt : Table → Table) (w : World) (op : WOp) (j : Nat
     | error e => rfl
     | ok o => simp [List.getElem?_append_left hj]
 
-theorem wstep_length (rt : Table → Table) (w : World) (op : WOp) : w.length ≤ (wstep rt w op).1.length := by
-  cases op with
-  | modify k m =>
-    simp only [wstep]
-    cases w[k]? <;> simp
-  | deriveSub k kw => simp only [wstep]; cases derive rt w (.deriveSub k kw) <;> simp
-  | deriveInterface k => simp only [wstep]; cases derive rt w (.deriveInterface k) <;> simp
-  | deriveMany ks => simp only [wstep]; cases derive rt w (.deriveMany ks) <;> simp
-
 /-- **independence over histories** (induction on the history): whatever happens to the other objects —
     modifications, derivations from them or from object `j` itself — object `j` is exactly what its own
     modifications made of it; in particular, with no modification of `j` in the history it is unchanged -/
@@ -109,7 +101,7 @@ theorem independence (rt : Table → Table) : ∀ (ops : List WOp) (w : World) (
   | [], w, j, _, _ => rfl
   | op :: rest, w, j, hj, hops => by
     have hrun : wrun rt w (op :: rest) = wrun rt (wstep rt w op).1 rest := rfl
-    rw [hrun, independence rt rest _ j (Nat.lt_of_lt_of_le hj (wstep_length rt w op))
+    rw [hrun, independence rt rest _ j (Nat.lt_of_lt_of_le hj (TableProofs.wstep_length rt w op))
       (fun o ho => hops o (List.mem_cons_of_mem _ ho))]
     exact independence_step rt w op j hj (hops op (by simp))
 
@@ -130,5 +122,20 @@ theorem derived_and_source_independent (rt : Table → Table) (w : World) (d : W
   refine ⟨independence_step rt w d j hj (fun m' => hd j m'), ?_⟩
   intro i hij hi
   exact independence_step rt _ (.modify j m) i hi (fun m' e => by injection e with e1 _; exact hij e1.symm)
+
+/-- non-vacuity of `snapshot`: a one-object world and a selection by chain satisfy its hypotheses; and a concrete
+    history (derive, then modify the source) leaves the derivative untouched by `independence` -/
+example :
+    let w : World := [⟨.single, Props.C03.exDb⟩]
+    let kw : List Kw := [⟨"chainID".toList, .scalar (.text "A".toList)⟩]
+    w[0]? = some ⟨.single, Props.C03.exDb⟩ ∧ KeysOK Props.C03.exDb kw ∧ RowIDInts kw ∧
+    Spec.tooMany Gen.max_sql_values Gen.SQLITE_LIMIT_VARIABLE_NUMBER kw = false ∧
+    (∀ op ∈ [WOp.deriveSub 0 kw, WOp.modify 0 (.updateColumn "x".toList [.real 9] none "atom".toList)], ∀ m, op ≠ WOp.modify 1 m) :=
+  ⟨rfl, by unfold KeysOK; decide, rowIDInts_of_check _ (by decide), by decide, by
+    intro op hop m
+    simp only [List.mem_cons, List.not_mem_nil, or_false] at hop
+    rcases hop with rfl | rfl
+    · intro h; cases h
+    · intro h; injection h with h1 _; exact absurd h1 (by decide)⟩
 
 end Props.C15
